@@ -84,3 +84,41 @@ func init() {
 		})},
 	)
 }
+
+// BoundaryLines: long lines (33 KB .. 62 KB, below the reader's limit) whose strings and keys alternate one
+// significant character with one kind of white space all the way through, so that whatever fixed-size
+// pieces a reader cuts a line into (4 KiB, 32 KiB, ...), one side of every cut is a blank that belongs
+// to the data. Outside the zones (whole line KEEP) and as the non-zone part of a command line.
+func (g *Gen) BoundaryLines() []*Node {
+	alt := func(n int, sp string) string {
+		b := make([]byte, 0, n+8)
+		for i := 0; len(b) < n; i++ {
+			b = append(b, "abcdefghijklmnopqrstuvwxyz"[i%26])
+			b = append(b, sp...)
+		}
+		return string(b)
+	}
+	var out []*Node
+	for i, n := range []int{33000, 40000, 50000, 62000} {
+		for j, sp := range []string{" ", "  ", "\u00a0", "\u3000", " \u2003"} {
+			// an odd and an even start offset: the head of the line shifts the pattern by one byte
+			if sp[0] > 0x7f || len(sp) > 2 {
+				if n > 9000 {
+					n = 9000 + 1000*i // non-ASCII white space may be written as \uXXXX escapes (6 bytes each): stay below the line limit
+				}
+			}
+			pad := StrN("p")
+			if (i+j)%2 == 1 {
+				pad = StrN("pp")
+			}
+			out = append(out, ObjN("t", ObjN("$date", StrN(g.ISODate())), "s", StrN("I"), "c", StrN("STORAGE"), "id", IntN(22430), "ctx", StrN("conn5"), "msg", StrN("WiredTiger message"),
+				"attr", ObjN("pad", pad, "message", StrN(alt(n, sp)), alt(300, sp)+"k", IntN(1))).With(&Tag{Role: Keep}))
+			line := ObjN("t", keep(ObjN("$date", StrN(g.ISODate()))), "s", KeepS("I"), "c", KeepS("COMMAND"), "id", KeepI(51803), "ctx", KeepS("conn9"), "msg", KeepS("Slow query"),
+				"attr", ObjN("type", KeepS("command"), "ns", StrN("db1.c").With(&Tag{Role: NsFull}), "appName", KeepS(alt(n-2000, sp)),
+					"command", ObjN("find", StrN("c").With(&Tag{Role: NsColl}), "filter", ObjN(alt(120, sp)+"f", sens(StrN(g.Token()), "str", "boundary-filter")), "comment", KeepS(alt(1500, sp)), "$db", StrN("db1").With(&Tag{Role: NsDB})),
+					"errMsg", KeepS(alt(400, sp))))
+			out = append(out, line)
+		}
+	}
+	return out
+}
